@@ -1,8 +1,13 @@
 (* C19 — summary percentages and verdict are sane.  Statements only; proofs in
-   Agg/Percent.v about Gen/GenPercent.v (re-translated from
-   Report.quality_profile_percentage, SummaryTable and both print_summary
-   functions on every run; `/` and 0.001 read as exact rationals). *)
-From Verif Require Import Base GenPercent Percent.
+   Agg/Percent.v and Agg/PercentFloatProofs.v about Gen/GenPercent.v (re-translated from
+   Report.quality_profile_percentage, SummaryTable and both print_summary functions on
+   every run).  Two layers: (1) the exact-arithmetic model (`/` and 0.001 read as exact
+   rationals); (2) EVERY outcome the floating-point evaluation may produce (`may_show`,
+   Agg/PercentFloat.v: each of the three ceil() is the ceiling of some value within 10^-12
+   of the exact one, the rest of the function as the source states it).  The code's real
+   outputs differ from layer (1) at shares of exactly n.001 % and are checked to lie in
+   layer (2) on every run. *)
+From Verif Require Import Base GenPercent Percent PercentFloat PercentFloatProofs.
 Open Scope Z_scope.
 
 (* shown p = (easy-or-verbose %, hard-to-maintain %, unmaintainable %) *)
@@ -37,6 +42,38 @@ Theorem C19_verdict : forall p, let '(_, h, u) := shown p in
   (summary_green u h = true -> (0 <? u) || (20 <? h) = false).
 Proof. exact verdict_spec. Qed.
 
+(* ---- for every admissible floating-point outcome ---- *)
+Theorem C19_float_admissible : forall p out,
+  (may_show_b p out = true <-> may_show p out) /\ may_show p (quality_profile_percentage p).
+Proof. intros. split; [apply may_show_b_spec|apply exact_is_admissible_gen]. Qed.
+Theorem C19_float_range : forall p0 p1 p2 p3 out, 0 <= p0 -> 0 <= p1 -> 0 <= p2 -> 0 <= p3 ->
+  may_show [p0; p1; p2; p3] out ->
+  let '(ev, h, u) := shown_of out in 0 <= ev <= 100 /\ 0 <= h <= 100 /\ 0 <= u <= 100 /\ ev + h + u = 100.
+Proof. exact robust_range. Qed.
+Theorem C19_float_accuracy : forall p0 p1 p2 p3 out, 0 <= p0 -> 0 <= p1 -> 0 <= p2 -> 0 <= p3 -> 0 < p0 + p1 + p2 + p3 ->
+  may_show [p0; p1; p2; p3] out ->
+  let total := p0 + p1 + p2 + p3 in
+  let '(ev, h, u) := shown_of out in
+  - 2 * total < 100 * (p0 + p1) - ev * total < 2 * total /\
+  - 2 * total < 100 * p2 - h * total < 2 * total /\
+  - 2 * total < 100 * p3 - u * total < 2 * total.
+Proof. exact robust_accuracy. Qed.
+(* below 10^9 lines of code a share above 0.001 % exceeds the threshold by more than the tolerance *)
+Theorem C19_float_never_hidden : forall p0 p1 p2 p3 out, 0 <= p0 -> 0 <= p1 -> 0 <= p2 -> 0 <= p3 -> 0 < p0 + p1 + p2 + p3 ->
+  p0 + p1 + p2 + p3 < 1000000000 ->
+  may_show [p0; p1; p2; p3] out ->
+  let total := p0 + p1 + p2 + p3 in
+  let '(ev, h, u) := shown_of out in
+  (100000 * p2 > total -> 0 < h) /\ (100000 * p3 > total -> 0 < u).
+Proof. exact robust_never_hidden. Qed.
+Theorem C19_float_empty : forall p0 p1 p2 p3 out, p0 + p1 + p2 + p3 = 0 -> may_show [p0; p1; p2; p3] out -> shown_of out = (100, 0, 0).
+Proof. exact robust_empty. Qed.
+
+Print Assumptions C19_float_admissible.
+Print Assumptions C19_float_range.
+Print Assumptions C19_float_accuracy.
+Print Assumptions C19_float_never_hidden.
+Print Assumptions C19_float_empty.
 Print Assumptions C19_range.
 Print Assumptions C19_accuracy.
 Print Assumptions C19_never_hidden.
@@ -45,5 +82,8 @@ Print Assumptions C19_verdict.
 
 Example C19_examples :
   shown [0; 0; 99; 101] = (0, 50, 50) /\ shown [0; 0; 1; 5] = (0, 17, 83) /\
-  shown [100000; 0; 1; 0] = (100, 0, 0) /\ shown [100000; 0; 2; 0] = (99, 1, 0) /\ shown [1; 1; 1; 1] = (50, 25, 25).
+  shown [100000; 0; 1; 0] = (100, 0, 0) /\ shown [100000; 0; 2; 0] = (99, 1, 0) /\ shown [1; 1; 1; 1] = (50, 25, 25) /\
+  (* 9.001 % hard-to-maintain: exact arithmetic shows 9 %, the floating-point code 10 %; both are admissible, 11 % is not *)
+  may_show_b [90999; 0; 9001; 0] (91, 0, 9, 0) = true /\ may_show_b [90999; 0; 9001; 0] (90, 0, 10, 0) = true /\
+  may_show_b [90999; 0; 9001; 0] (89, 0, 11, 0) = false.
 Proof. vm_compute. repeat split. Qed.
